@@ -67,6 +67,15 @@ def on_axis_line_at_dyadic_break(n1, n2, missed):
     return False
 
 
+def collinear_net(n):
+    """degree >= 2 and all control points on one line"""
+    if len(n[0]) < 3:
+        return False
+    x0, y0 = n[0][0], n[1][0]
+    d = next(((x - x0, y - y0) for x, y in zip(n[0], n[1]) if (x, y) != (x0, y0)), None)
+    return d is not None and all((x - x0) * d[1] - (y - y0) * d[0] == 0 for x, y in zip(n[0], n[1]))
+
+
 def well_conditioned(iso):
     """None if the pair is in the domain of the property, else the reason it is not"""
     if iso.status != "certified":
@@ -236,6 +245,10 @@ def main():
                 k = "tangent-bbox:curve-on-axis-parallel-line"
             elif on_axis_line_at_dyadic_break(n1, n2, missed):
                 k = "tangent-bbox:curve-on-axis-parallel-line:dyadic-break-point"
+            elif all(r.s_exact is not None and r.t_exact is not None for r in missed) and (collinear_net(n1) or collinear_net(n2)):
+                # class of the certified root (a property of the input): a common END point of the two curves, one of which
+                # is a straight curve presented with collinear, unevenly spaced control points (degree >= 2)
+                k = "missed-crossing:shared-end-point:collinear-net"
             elif all((r.s_exact is None) != (r.t_exact is None) for r in missed):
                 # class of the certified root (a property of the input): an end point of one curve lying in the
                 # interior of the other curve
